@@ -78,3 +78,68 @@ pub fn authorize_single(p: Policy, req: &Request, ents: &Entities) -> Result<(De
     let o = single_policy_outcome(&resp, &id)?;
     Ok((resp.decision(), o))
 }
+
+/// Compare a library entity store with the model world: same uids (except `ignore`),
+/// same attribute / tag values, same ancestor relation.
+pub fn store_matches_model(ents: &Entities, w: &GWorld, ignore: &[Uid]) -> Result<(), String> {
+    let core: &cedar_policy_core::entities::Entities = ents.as_ref();
+    let mut seen = 0usize;
+    for e in core.iter() {
+        let u = bridge::core_uid_back(e.uid());
+        if ignore.contains(&u) {
+            continue;
+        }
+        seen += 1;
+        let m = match w.entities.get(&u) {
+            Some(m) => m,
+            None => return Err(format!("store holds {:?} which the model does not", u)),
+        };
+        let pv = |p: &ast::PartialValue| -> Result<GValue, String> {
+            match p {
+                ast::PartialValue::Value(v) => bridge::value_back(v),
+                ast::PartialValue::Residual(r) => Err(format!("harness: residual attribute value {r}")),
+            }
+        };
+        let mut attrs = std::collections::BTreeMap::new();
+        for (k, v) in e.attrs() {
+            attrs.insert(k.to_string(), pv(v)?);
+        }
+        if attrs != m.attrs {
+            return Err(format!("attributes of {:?}: store {:?} vs model {:?}", u, attrs, m.attrs));
+        }
+        let mut tags = std::collections::BTreeMap::new();
+        for (k, v) in e.tags() {
+            tags.insert(k.to_string(), pv(v)?);
+        }
+        if tags != m.tags {
+            return Err(format!("tags of {:?}: store {:?} vs model {:?}", u, tags, m.tags));
+        }
+        let anc: std::collections::BTreeSet<Uid> = e.ancestors().map(bridge::core_uid_back).collect();
+        let manc = w.ancestors(&u);
+        if anc != manc {
+            return Err(format!("ancestors of {:?}: store {:?} vs model {:?}", u, anc, manc));
+        }
+    }
+    let expected = w.entities.keys().filter(|u| !ignore.contains(u)).count();
+    if seen != expected {
+        return Err(format!("store holds {} entities, model {}", seen, expected));
+    }
+    Ok(())
+}
+
+/// the record value of a Context, in harness terms
+pub fn context_value(cx: &cedar_policy::Context) -> Result<GValue, String> {
+    let req = Request::new(
+        bridge::uid(&Uid::new("A", "a")),
+        bridge::uid(&Uid::new("Action", "a")),
+        bridge::uid(&Uid::new("A", "a")),
+        cx.clone(),
+        None,
+    )
+    .map_err(|e| e.to_string())?;
+    let e = ast::Expr::var(ast::Var::Context);
+    match interpret(&e, &req, &Entities::empty())? {
+        Obs::Val(v) => Ok(v),
+        Obs::Err(c) => Err(format!("harness: evaluating `context` errs with class {c}")),
+    }
+}
